@@ -1,5 +1,11 @@
 //! C07 — reshaping operations never reorder, drop or invent elements. Value protocol with tags; chains of operations.
+//!
+//! Every chain is executed on the i64 tag array through the Result receiver (`Ok(a).step().step()…`, the answer compared with
+//! the model) AND through the plain-receiver twin of every step (`a.step()?` …), the two compared after EVERY step; then on nine
+//! images of the tag array in other element types (u8, i8, u64 beyond 2^53, f64 with tag 0 = -0.0, f32 likewise, an f64 table of
+//! special values compared bit-wise, bool, String, char), each through both receivers.
 use arrharness::*;
+use std::panic::{catch_unwind, AssertUnwindSafe};
 
 /// ordered factorizations of n into exactly k factors >= 1
 fn factorizations(n: usize, k: usize) -> Vec<Vec<usize>> {
@@ -9,11 +15,43 @@ fn factorizations(n: usize, k: usize) -> Vec<Vec<usize>> {
     out
 }
 
+/// tag array whose tag 0 (= -0.0 / the zero element in every image) sits in the middle instead of at flat position 0
+fn centred(s: &[usize]) -> String { let n: usize = s.iter().product(); if n < 2 { tag(s) } else { tag_off(s, -((n / 2) as i64)) } }
+
+/// a random chain of shape-changing steps starting (and ending) at shape `s` with `n > 0` elements
+fn random_chain(rng: &mut Rng, s: &[usize], max_steps: usize) -> String {
+    let n: usize = s.iter().product();
+    let mut cur = s.to_vec(); let mut steps: Vec<String> = vec![];
+    for _ in 0..(1 + rng.below(max_steps)) {
+        match rng.below(6) {
+            0 => { let k = 1 + rng.below(4); let f = factorizations(n, k); let t = rng.pick(&f).clone(); steps.push(format!("reshape:{}", show_list(&t))); cur = t; }
+            1 => { steps.push("ravel".into()); cur = vec![n]; }
+            2 => { let p = rng.below(cur.len() + 1); let neg = rng.below(2) == 0;
+                   let spelled = if neg { p as isize - (cur.len() as isize + 1) } else { p as isize };
+                   steps.push(format!("expand:{spelled}")); cur.insert(p, 1); }
+            3 => { steps.push("squeeze:none".into()); cur.retain(|&d| d != 1); }
+            4 => { if let Some(p) = cur.iter().position(|&d| d == 1) { let neg = rng.below(2) == 0;
+                   steps.push(format!("squeeze:{}", if neg { p as isize - cur.len() as isize } else { p as isize })); cur.remove(p); } }
+            _ => { let k = 1 + rng.below(3); steps.push(format!("atleast:{k}"));
+                   cur = match (k, cur.len()) { (2, 0) => vec![1, 1], (2, 1) => vec![1, cur[0]], (3, 0) => vec![1, 1, 1], (3, 1) => vec![1, cur[0], 1], (3, 2) => vec![cur[0], cur[1], 1], _ => cur }; }
+        }
+    }
+    steps.push(format!("reshape:{}", show_list(s)));
+    steps.join("|")
+}
+
 fn gen(tier: &str, seed: u64, out: &mut dyn FnMut(String)) {
     let thorough = tier == "thorough";
     let mut rng = Rng::new(seed);
+    // corpus of past misses (seeded changes C07-r2-m1, -m2): one literal witness each; the classes follow in the streams below
+    out("chain 3:10,20,30 resize:30,40".into());
+    out("chain i0,0 squeeze:0".into());
+    out("chain i0,3,0 squeeze:-1".into());
+
     let mut all = shapes(1, 4, 1, 3);
     all.extend(vec![vec![0], vec![2, 0], vec![1, 0, 3], vec![4], vec![5, 1], vec![1, 7, 1], vec![2, 2, 2, 2, 2]]);
+    // stream 2 — zero-length axes: every zero shape goes through the whole exhaustive enumeration below
+    for z in zero_shapes().into_iter().chain(vec![vec![0, 3, 0], vec![0, 1, 0, 2], vec![0, 0, 0], vec![1, 0, 1], vec![0, 1, 0], vec![1, 0, 0, 1], vec![3, 0]]) { if !all.contains(&z) { all.push(z); } }
     for s in &all {
         let a = tag(s); let n: usize = s.iter().product(); let nd = s.len() as isize;
         out(format!("chain {a} ravel"));
@@ -22,9 +60,14 @@ fn gen(tier: &str, seed: u64, out: &mut dyn FnMut(String)) {
         if n > 0 { for k in 1..=(if thorough { 5 } else { 4 }) { for t in factorizations(n, k) {
             out(format!("chain {a} reshape:{}|reshape:{}", show_list(&t), show_list(s)));
         } } }
+        // an empty array reshapes to every shape with a zero-length axis and to no other
+        if n == 0 { for t in [vec![0], vec![0, 0], vec![0, 5], vec![3, 0], vec![1, 0, 1], vec![2, 0, 0, 2], vec![1], vec![1, 1], vec![]] {
+            out(format!("chain {a} reshape:{}|reshape:{}", show_list(&t), show_list(s)));
+        } }
         // counts that do not fit: refused
         for t in [vec![n + 1], vec![n, 2], vec![0], vec![]] { if t.iter().product::<usize>() != n { out(format!("chain {a} reshape:{}", show_list(&t))); } }
         for t in [vec![1usize], vec![2, 2], vec![n + 1], vec![2, n.max(1)], vec![3, 1, 2], vec![0], vec![n.max(1) * 2 + 1]] { out(format!("chain {a} resize:{}", show_list(&t))); }
+        for t in [vec![0usize, 0], vec![2, 0], vec![0, 3], vec![]] { out(format!("chain {a} resize:{}", show_list(&t))); }
         for k in [0, 1, n.saturating_sub(1), n, n + 1, 2 * n + 1] { out(format!("chain {a} cycle_take:{k}")); }
         for k in 0..=4 { out(format!("chain {a} atleast:{k}")); }
         // expand_dims: every single position (valid range is -(nd+1)..=nd for one new axis), every pair, out of range
@@ -35,64 +78,205 @@ fn gen(tier: &str, seed: u64, out: &mut dyn FnMut(String)) {
         out(format!("chain {a} squeeze:none"));
         for p in (-nd - 1)..=nd { out(format!("chain {a} squeeze:{p}")); }
         for p in -nd..nd { for q in -nd..nd { if p != q { out(format!("chain {a} squeeze:{p},{q}")); } } }
+        // stream 5 — the same call twice, insert-then-remove at every position in both spellings, an error passed along the chain
+        let c = centred(s);
+        for st in ["ravel", "squeeze:none", "atleast:1", "atleast:2", "atleast:3", "expand:0", "expand:-1"] { out(format!("chain {c} {st}|{st}")); }
+        for p in (-nd - 1)..=nd {
+            let other = if p < 0 { p + nd + 1 } else { p - nd - 1 };
+            out(format!("chain {c} expand:{p}|squeeze:{p}")); out(format!("chain {c} expand:{p}|squeeze:{other}"));
+        }
+        out(format!("chain {c} reshape:{}|ravel|squeeze:none", n + 1)); out(format!("chain {c} squeeze:{nd}|ravel")); out(format!("chain {c} atleast:4|ravel"));
+        if n > 0 { out(format!("chain {c} resize:{}|reshape:2,{}|resize:{}", 2 * n, n, show_list(s))); }
     }
     // chains: random sequences that end in the original shape (so the whole chain must be the identity)
     let n_chain = if thorough { 20000 } else { 3000 };
     for _ in 0..n_chain {
         let s = rng.pick(&all).clone();
         let n: usize = s.iter().product(); if n == 0 { continue; }
-        let mut cur = s.clone(); let mut steps: Vec<String> = vec![];
-        for _ in 0..(1 + rng.below(8)) {
-            match rng.below(6) {
-                0 => { let k = 1 + rng.below(4); let f = factorizations(n, k); let t = rng.pick(&f).clone(); steps.push(format!("reshape:{}", show_list(&t))); cur = t; }
-                1 => { steps.push("ravel".into()); cur = vec![n]; }
-                2 => { let p = rng.below(cur.len() + 1); let neg = rng.below(2) == 0;
-                       let spelled = if neg { p as isize - (cur.len() as isize + 1) } else { p as isize };
-                       steps.push(format!("expand:{spelled}")); cur.insert(p, 1); }
-                3 => { steps.push("squeeze:none".into()); cur.retain(|&d| d != 1); }
-                4 => { if let Some(p) = cur.iter().position(|&d| d == 1) { let neg = rng.below(2) == 0;
-                       steps.push(format!("squeeze:{}", if neg { p as isize - cur.len() as isize } else { p as isize })); cur.remove(p); } }
-                _ => { let k = 1 + rng.below(3); steps.push(format!("atleast:{k}"));
-                       cur = match (k, cur.len()) { (2, 0) => vec![1, 1], (2, 1) => vec![1, cur[0]], (3, 0) => vec![1, 1, 1], (3, 1) => vec![1, cur[0], 1], (3, 2) => vec![cur[0], cur[1], 1], _ => cur }; }
-            }
-        }
-        steps.push(format!("reshape:{}", show_list(&s)));
-        out(format!("chain {} {}", tag(&s), steps.join("|")));
+        out(format!("chain {} {}", tag(&s), random_chain(&mut rng, &s, 8)));
     }
     // create with ndmin
     for s in shapes(1, 3, 1, 3) { let n: usize = s.iter().product(); for nd in ["none", "0", "1", "2", "3", "4", "5"] {
         out(format!("create {} {} {nd}", show_list(&(0..n as i64).collect::<Vec<_>>()), show_list(&s)));
     } }
     out("create 1,2,3 2,2 none".into()); out("create 1,2,3 2,2 3".into()); out("create - 0 2".into());
+
+    // ------------------------------------------------------------------ stream 1 — sizes beyond the small scope
+    let mut big = big_shapes();
+    big.extend(vec![vec![255], vec![256], vec![257], vec![1023], vec![1024], vec![1025], vec![4096], vec![4097], vec![1, 9, 1], vec![1, 1, 300], vec![17, 1], vec![1, 1024, 1], vec![13, 10], vec![1, 4100]]);
+    for s in &big {
+        let (a, n, nd) = (centred(s), s.iter().product::<usize>(), s.len() as isize);
+        out(format!("chain {a} ravel")); out(format!("chain {a} ravel|reshape:{}", show_list(s)));
+        for k in 1..=4 { let f = factorizations(n, k); for _ in 0..(if thorough { 8 } else { 3 }) { let t = rng.pick(&f);
+            out(format!("chain {a} reshape:{}|reshape:{}", show_list(t), show_list(s))); } }
+        out(format!("chain {a} reshape:{}", n + 1)); out(format!("chain {a} reshape:{},2", n));
+        for k in 0..=4 { out(format!("chain {a} atleast:{k}")); }
+        for p in (-nd - 2)..=(nd + 1) { out(format!("chain {a} expand:{p}")); out(format!("chain {a} expand:{p}|squeeze:{p}")); }
+        out(format!("chain {a} expand:0,-1")); out(format!("chain {a} expand:-1,1|squeeze:none|reshape:{}", show_list(s)));
+        out(format!("chain {a} squeeze:none"));
+        for p in -nd..nd { out(format!("chain {a} squeeze:{p}")); }
+        for _ in 0..(if thorough { 12 } else { 3 }) { out(format!("chain {a} {}", random_chain(&mut rng, s, 6))); }
+        out(format!("create {a} {} none", show_list(s))); out(format!("create {a} {} {}", show_list(s), nd + 2)); out(format!("create {a} {} 1", show_list(s)));
+        out(format!("create {a} {} 3", n + 1));
+    }
+    for z in zero_shapes() { out(format!("create - {} none", show_list(&z))); out(format!("create - {} 4", show_list(&z))); out(format!("create 1 {} 2", show_list(&z))); }
+    // resize / cycle_take: every source length class (dividing / not dividing 256, 1024, 4096; prime; just around the thresholds)
+    // x targets just above 256, 512, 1024, 2048, 4096 (shapes of rank 1..3), and shrinking from big sources
+    let mut lens: Vec<usize> = vec![1, 2, 3, 5, 6, 7, 8, 9, 10, 12, 15, 16, 17, 24, 27, 31, 33, 100, 255, 256, 257, 300, 1000, 1023, 1024, 1025, 1030, 4100];
+    if thorough { lens.extend(11..=64); lens.extend(vec![127, 128, 129, 511, 512, 513, 2047, 2048, 2049, 4095, 4096, 4097]); lens.sort(); lens.dedup(); }
+    let mut targets: Vec<Vec<usize>> = vec![vec![257], vec![513], vec![1025], vec![30, 40], vec![2049], vec![4097], vec![3, 7, 100], vec![70, 70], vec![1024], vec![2, 1024], vec![17, 16]];
+    if thorough { targets.extend(vec![vec![8193], vec![2, 3, 4, 5, 2, 9], vec![1026], vec![4, 1025], vec![100, 100], vec![65, 64], vec![1, 1100, 1]]); }
+    for &l in &lens {
+        let srcs: Vec<Vec<usize>> = if l % 3 == 0 && l > 3 { vec![vec![l], vec![3, l / 3]] } else if l % 2 == 0 && l > 2 { vec![vec![l], vec![l / 2, 2]] } else { vec![vec![l]] };
+        for (k, t) in targets.iter().enumerate() {
+            let s = &srcs[k % srcs.len()];
+            out(format!("chain {} resize:{}", centred(s), show_list(t)));
+        }
+        for n in [255usize, 256, 257, 1023, 1024, 1025, 2049, 4097, 5000] { if thorough || (n + l) % 3 != 0 { out(format!("chain {} cycle_take:{n}", centred(&srcs[0]))); } }
+    }
+    for s in &big { let n: usize = s.iter().product(); if n < 200 { continue; }
+        for t in [vec![n - 1], vec![n / 2, 2], vec![1025.min(n)], vec![n + 1], vec![2, n], vec![3, 1, n / 2]] { out(format!("chain {} resize:{}", centred(s), show_list(&t))); }
+        out(format!("chain {} cycle_take:{}", centred(s), n + 1025));
+        out(format!("chain {} resize:2,{n}|reshape:{}|resize:{}", centred(s), 2 * n, show_list(s)));
+    }
 }
 
-fn apply(r: Result<Array<i64>, ArrayError>, step: &str) -> Option<Result<Array<i64>, ArrayError>> {
-    let (name, arg) = step.split_once(':').unwrap_or((step, ""));
-    Some(match name {
-        "ravel" => r.ravel(),
-        "reshape" => r.reshape(&parse_usize_list(arg)),
-        "resize" => r.resize(&parse_usize_list(arg)),
-        "cycle_take" => r.cycle_take(arg.parse().ok()?),
-        "atleast" => r.atleast(arg.parse().ok()?),
-        "expand" => r.expand_dims(parse_isize_list(arg)),
-        "squeeze" => r.squeeze(if arg == "none" { None } else { Some(parse_isize_list(arg)) }),
-        _ => return None,
-    })
+// ------------------------------------------------------------------------------------------------ executor
+
+#[derive(Clone)]
+enum Step { Ravel, Reshape(Vec<usize>), Resize(Vec<usize>), CycleTake(usize), Atleast(usize), Expand(Vec<isize>), Squeeze(Option<Vec<isize>>) }
+
+impl Step {
+    fn parse(step: &str) -> Option<Step> {
+        let (name, arg) = step.split_once(':').unwrap_or((step, ""));
+        Some(match name {
+            "ravel" => Step::Ravel,
+            "reshape" => Step::Reshape(parse_usize_list(arg)),
+            "resize" => Step::Resize(parse_usize_list(arg)),
+            "cycle_take" => Step::CycleTake(arg.parse().ok()?),
+            "atleast" => Step::Atleast(arg.parse().ok()?),
+            "expand" => Step::Expand(parse_isize_list(arg)),
+            "squeeze" => Step::Squeeze(if arg == "none" { None } else { Some(parse_isize_list(arg)) }),
+            _ => return None,
+        })
+    }
+    /// the chained receiver: `impl ArrayManipulate<T> / ArrayAxis<T> for Result<Array<T>, ArrayError>`
+    fn on_result<T: ArrayElement>(&self, r: &Result<Array<T>, ArrayError>) -> Result<Array<T>, ArrayError> {
+        match self {
+            Step::Ravel => r.ravel(),
+            Step::Reshape(s) => r.reshape(s),
+            Step::Resize(s) => r.resize(s),
+            Step::CycleTake(n) => r.cycle_take(*n),
+            Step::Atleast(n) => r.atleast(*n),
+            Step::Expand(ax) => r.expand_dims(ax.clone()),
+            Step::Squeeze(ax) => r.squeeze(ax.clone()),
+        }
+    }
+    /// the plain-receiver twin
+    fn on_array<T: ArrayElement>(&self, a: &Array<T>) -> Result<Array<T>, ArrayError> {
+        match self {
+            Step::Ravel => a.ravel(),
+            Step::Reshape(s) => a.reshape(s),
+            Step::Resize(s) => a.resize(s),
+            Step::CycleTake(n) => a.cycle_take(*n),
+            Step::Atleast(n) => a.atleast(*n),
+            Step::Expand(ax) => a.expand_dims(ax.clone()),
+            Step::Squeeze(ax) => a.squeeze(ax.clone()),
+        }
+    }
+}
+
+/// `Err(())` = the call panicked
+type Out<T> = Result<Result<Array<T>, ArrayError>, ()>;
+
+fn run<T: ArrayElement>(a: &Array<T>, steps: &[Step], chained: bool) -> Out<T> {
+    catch_unwind(AssertUnwindSafe(|| {
+        if chained { let mut r: Result<Array<T>, ArrayError> = Ok(a.clone()); for c in steps { r = c.on_result(&r); } r }
+        else { let mut cur = a.clone(); for c in steps { match c.on_array(&cur) { Ok(x) => cur = x, Err(e) => return Err(e) } } Ok(cur) }
+    })).map_err(|_| ())
+}
+
+fn class<T: ArrayElement>(o: &Out<T>) -> &'static str { match o { Err(()) => "panic", Ok(Err(_)) => "err", Ok(Ok(_)) => "ok" } }
+fn text(o: &Out<i64>) -> String { match o { Err(()) => "panic".to_string(), Ok(r) => { if let Ok(x) = r { if !consistent(x) { return "ok INCONSISTENT".to_string(); } } res_arr(r) } } }
+
+/// is `got` (element type `T`) the image of the canonical i64 result?
+fn image_of<T: ArrayElement>(label: &str, recv: &str, got: &Out<T>, canon: &Out<i64>, from: &impl Fn(i64) -> T, same: &impl Fn(&T, &T) -> bool) -> Option<String> {
+    if class(got) != class(canon) { return Some(format!("TYPE-DIVERGENCE {label}, {recv}: outcome class {} instead of {}", class(got), class(canon))); }
+    if let (Ok(Ok(g)), Ok(Ok(c))) = (got, canon) {
+        if !consistent(g) { return Some(format!("TYPE-DIVERGENCE {label}, {recv}: inconsistent array")); }
+        let (gs, cs, ge, ce) = (g.get_shape().unwrap(), c.get_shape().unwrap(), g.get_elements().unwrap(), c.get_elements().unwrap());
+        if gs != cs || ge.len() != ce.len() { return Some(format!("TYPE-DIVERGENCE {label}, {recv}: shape {} instead of {}", show_list(&gs), show_list(&cs))); }
+        for p in 0..ge.len() { let want = from(ce[p]); if !same(&ge[p], &want) {
+            return Some(format!("TYPE-DIVERGENCE {label}, {recv}: flat position {p} holds {:?} instead of {:?} (compared bit-wise for floats)", ge[p], want)); } }
+    }
+    None
+}
+
+/// the same chain on the image of the tag array in element type `T`, both receivers
+fn image<T: ArrayElement>(label: &str, shape: &[usize], tags: &[i64], steps: &[Step], canon: &Out<i64>, from: impl Fn(i64) -> T, same: impl Fn(&T, &T) -> bool) -> Option<String> {
+    let a: Array<T> = Array::new(tags.iter().map(|&t| from(t)).collect(), shape.to_vec()).expect("harness: array literal");
+    for chained in [true, false] {
+        let recv = if chained { "Ok(array) receiver" } else { "plain receiver" };
+        if let Some(d) = image_of(label, recv, &run(&a, steps, chained), canon, &from, &same) { return Some(d); }
+    }
+    None
+}
+
+/// `Array::create` on the image of the elements
+fn image_create<T: ArrayElement>(label: &str, el: &[i64], sh: &[usize], nd: Option<usize>, canon: &Out<i64>, from: impl Fn(i64) -> T, same: impl Fn(&T, &T) -> bool) -> Option<String> {
+    let elems: Vec<T> = el.iter().map(|&t| from(t)).collect();
+    let got: Out<T> = catch_unwind(AssertUnwindSafe(|| Array::create(elems.clone(), sh.to_vec(), nd))).map_err(|_| ());
+    image_of(label, "Array::create", &got, canon, &from, &same)
+}
+
+/// f64 value classes by tag: -0.0, +0.0, NaN, the smallest subnormal, infinities, ordinary values
+fn special_f64(t: i64) -> f64 {
+    match t.rem_euclid(8) { 0 => -0.0, 1 => t as f64, 2 => f64::NAN, 3 => -(t as f64) - 0.5, 4 => f64::from_bits(1), 5 => 0.0, 6 => f64::NEG_INFINITY, _ => f64::from_bits(0xFFF8_0000_0000_0001) }
+}
+
+/// run `$f!(label, from, same)` for every image type until one reports a divergence
+macro_rules! every_type {
+    ($call:ident, $($pre:expr),*) => {
+        None::<String>.or_else(|| $call("u8", $($pre),*, tag_u8, |x: &u8, y: &u8| x == y))
+            .or_else(|| $call("f64 (tag 0 = -0.0)", $($pre),*, tag_f64z, |x: &f64, y: &f64| x.to_bits() == y.to_bits()))
+            .or_else(|| $call("f64 special values", $($pre),*, special_f64, |x: &f64, y: &f64| x.to_bits() == y.to_bits()))
+            .or_else(|| $call("f32 (tag 0 = -0.0)", $($pre),*, |t: i64| if t == 0 { -0.0f32 } else { t as f32 }, |x: &f32, y: &f32| x.to_bits() == y.to_bits()))
+            .or_else(|| $call("i8", $($pre),*, tag_i8, |x: &i8, y: &i8| x == y))
+            .or_else(|| $call("u64 above 2^53", $($pre),*, |t: i64| u64::MAX - (t.rem_euclid(1 << 40) as u64), |x: &u64, y: &u64| x == y))
+            .or_else(|| $call("bool", $($pre),*, |t: i64| t.rem_euclid(2) == 1, |x: &bool, y: &bool| x == y))
+            .or_else(|| $call("String", $($pre),*, |t: i64| t.to_string(), |x: &String, y: &String| x == y))
+            .or_else(|| $call("char", $($pre),*, |t: i64| char::from_u32(0x30 + t.rem_euclid(0x700) as u32).unwrap_or('?'), |x: &char, y: &char| x == y))
+    };
 }
 
 fn exec(op: &str, args: &[&str], expected: &str) -> Option<Verdict> {
     match op {
         "chain" => {
+            if args.len() != 2 { return None; }
+            let (shape, tags) = parse_arr_raw(args[0]);
             let a = parse_arr_i64(args[0]);
-            let steps: Vec<&str> = if args[1] == "-" { vec![] } else { args[1].split('|').collect() };
-            for s in &steps { if s.split_once(':').map_or(*s, |x| x.0).is_empty() { return None; } }
-            let obs = guarded(|| { let mut r: Result<Array<i64>, ArrayError> = Ok(a.clone()); for s in &steps { r = apply(r, s).expect("bad step"); } 
-                                   if let Ok(x) = &r { if !consistent(x) { return "ok INCONSISTENT".to_string(); } } res_arr(&r) });
-            Some(compare_default(obs, expected))
+            let mut steps: Vec<Step> = vec![];
+            if args[1] != "-" { for s in args[1].split('|') { if s.split_once(':').map_or(s, |x| x.0).is_empty() { return None; } steps.push(Step::parse(s)?); } }
+            // the answer compared with the model: the whole chain through the Result receiver (as before)
+            let canon = run(&a, &steps, true);
+            let obs = text(&canon);
+            if let Verdict::Mismatch { observed, detail } = compare_default(obs.clone(), expected) { return Some(Verdict::Mismatch { observed, detail }); }
+            // plain-receiver twin, compared after every step (a compensating pair of steps must not hide a difference)
+            let mut div: Option<String> = None;
+            for k in 1..=steps.len() {
+                let (p, c) = (text(&run(&a, &steps[..k], false)), if k == steps.len() { obs.clone() } else { text(&run(&a, &steps[..k], true)) });
+                if p != c { div = Some(format!("RECEIVER-DIVERGENCE after step {k} (`{}`): plain receiver gives `{}`, Ok(array) receiver `{}`", args[1].split('|').nth(k - 1).unwrap_or(""), truncate(&p, 300), truncate(&c, 300))); break; }
+            }
+            let div = div.or_else(|| every_type!(image, &shape, &tags, &steps, &canon));
+            Some(match div { Some(d) => compare_default(format!("{d}; i64 run: {}", truncate(&obs, 300)), expected), None => compare_default(obs, expected) })
         }
         "create" => {
-            let el = parse_i64_list(args[0]); let sh = parse_usize_list(args[1]); let nd: Option<usize> = parse_opt(args[2]);
-            Some(compare_default(guarded(|| res_arr(&Array::create(el.clone(), sh.clone(), nd))), expected))
+            let el = if args[0].starts_with('i') { parse_arr_raw(args[0]).1 } else { parse_i64_list(args[0]) }; let sh = parse_usize_list(args[1]); let nd: Option<usize> = parse_opt(args[2]);
+            let canon: Out<i64> = catch_unwind(AssertUnwindSafe(|| Array::create(el.clone(), sh.clone(), nd))).map_err(|_| ());
+            let obs = text(&canon);
+            if let Verdict::Mismatch { observed, detail } = compare_default(obs.clone(), expected) { return Some(Verdict::Mismatch { observed, detail }); }
+            let div = every_type!(image_create, &el, &sh, nd, &canon);
+            Some(match div { Some(d) => compare_default(format!("{d}; i64 run: {}", truncate(&obs, 300)), expected), None => compare_default(obs, expected) })
         }
         _ => None,
     }
@@ -106,5 +290,5 @@ fn nontrivial(op: &str, args: &[&str]) -> bool {
 
 fn main() {
     harness_main(Spec { prop: "C07", gen, exec, nontrivial, hang_secs: 20,
-        rule: "every shape rank<=4 len<=3 (+ empties, unit-rich, rank 5): reshape to EVERY ordered factorization of the count into <=4 (5) axes and back, non-fitting counts, resize smaller/larger, cycle_take, atleast 0..4, expand_dims at every single position and every ordered pair in -(nd+2)..nd+2, squeeze none / every axis +- / every pair; seeded random chains (<=8 steps, applied through the Result-receiver API) that end in the original shape; create with ndmin 0..5. Tag arrays. non-trivial = >=2 elements and a non-empty chain" });
+        rule: "every shape rank<=4 len<=3 (+ 19 shapes with zero-length axes incl. [0,0],[0,3,0],[0,1,0,2]; unit-rich, rank 5): reshape to EVERY ordered factorization of the count into <=4 (5) axes and back (empty arrays: to every kind of empty / non-empty target), non-fitting counts, resize smaller/larger/empty, cycle_take, atleast 0..4, expand_dims at every single position and every ordered pair in -(nd+2)..nd+2, squeeze none / every axis +- / every pair, same step twice, expand-then-squeeze in both spellings, errors passed along a chain; seeded random chains (<=8 steps) that end in the original shape; create with ndmin 0..5. Sizes: big_shapes() + lengths around 256/1024/4096 (ravel, sampled factorizations and back, atleast, expand/squeeze at every position, random chains, create); resize from 28 (thorough ~90) source lengths (dividing and not dividing 256/1024/4096) to targets just above 256/512/1024/2048/4096 of rank 1-3, cycle_take up to 5000, shrinking from big sources. EVERY chain runs through the Result receiver (compared with the model) and through the plain-receiver twin of every step (compared after every step), then on the u8, i8, u64>2^53, f64(-0.0), f32(-0.0), f64 special values (bit-wise), bool, String, char images on both receivers. Tag arrays. non-trivial = >=2 elements and a non-empty chain" });
 }
